@@ -65,7 +65,14 @@ func main() {
 		fmt.Fprintln(os.Stderr, err)
 		os.Exit(1)
 	}
+	var tbl strings.Builder
+	tbl.WriteString("var siteFunc = [...]string{\"\",\n")
+	for _, st := range sites {
+		tbl.WriteString("\t" + strconv.Quote(st.Func) + ",\n")
+	}
+	tbl.WriteString("}\n")
 	src := strings.ReplaceAll(runtimeSrc, "NSITES", strconv.Itoa(len(sites)+1))
+	src = strings.Replace(src, "// SITEFUNC", tbl.String(), 1)
 	if err := os.WriteFile(filepath.Join(rtDir, "verifrt.go"), []byte(src), 0o644); err != nil {
 		fmt.Fprintln(os.Stderr, err)
 		os.Exit(1)
@@ -168,6 +175,7 @@ import (
 	"os"
 	"runtime"
 	"strconv"
+	"strings"
 	"time"
 )
 
@@ -179,9 +187,12 @@ var (
 	seed  uint64
 	prob  uint64 // a hot site acts with probability prob/1024
 	hot   [NSITES]bool
+	focus [NSITES]bool // sites inside the functions named by VERIF_PERTURB_FOCUS: always hot, act every second time
 	hits  [NSITES]uint32
 	state uint64
 )
+
+// SITEFUNC
 
 func init() {
 	if os.Getenv("VERIF_PERTURB") == "" {
@@ -207,6 +218,16 @@ func init() {
 		hot[i] = x%3 == 0
 	}
 	state = seed | 1
+	// focus: the functions a property is anchored in (comma separated substrings of the function name)
+	if f := os.Getenv("VERIF_PERTURB_FOCUS"); f != "" {
+		for i := range focus {
+			for _, sub := range strings.Split(f, ",") {
+				if sub != "" && i < len(siteFunc) && strings.Contains(siteFunc[i], sub) {
+					focus[i] = true
+				}
+			}
+		}
+	}
 }
 
 // P is called before every statement of the instrumented packages.
@@ -217,6 +238,23 @@ func P(id int) {
 		return
 	}
 	hits[id]++
+	if focus[id] {
+		state ^= state << 13
+		state ^= state >> 7
+		state ^= state << 17
+		r := state
+		if r%2 == 0 {
+			return
+		}
+		if mode == 2 && (r>>1)%2 == 0 {
+			time.Sleep(time.Duration(20+(r>>12)%2980) * time.Microsecond)
+			return
+		}
+		for k := uint64(0); k <= (r>>12)%6; k++ {
+			runtime.Gosched()
+		}
+		return
+	}
 	if !hot[id] {
 		return
 	}
